@@ -64,7 +64,10 @@ def fully_connect(
         .sample(num_pre, replace=True)
         .index.to_numpy()
     )
-    global_post_indices = global_post_indices.reshape((-1, num_pre), order="F").ravel()
+    # `global_post_indices` holds `num_pre` samples for each postsynaptic cell (post
+    # cell major). Reorder such that entry `i * num_post + j` is a compartment of the
+    # `j`-th post cell, matching the layout of `pre_rows` below.
+    global_post_indices = global_post_indices.reshape((num_post, num_pre)).T.ravel()
     post_rows = post_cell_view.nodes.loc[global_post_indices]
 
     # Pre-synapse is at the zero-eth branch and zero-eth compartment.
